@@ -179,4 +179,28 @@ def Symmetric : Tree → Prop
     (c3.isNode = true → p.pd = retDelay c3) ∧ (c1.isNode = true → p.pd = retDelay c1) ∧
     (c2.isNode = true → p.pd = retDelay c2) ∧ Symmetric c3 ∧ Symmetric c1 ∧ Symmetric c2
 
+
+/-- Expected programmed delays on a pure chain: a DC device gets its arrival time minus the arrival
+    time of the first DC device (`ref`, `none` while none was seen); devices without DC are not
+    programmed (their `propagation_delay` stays 0). -/
+def chainTruth : Tree → Option Nat → Nat → List Nat
+  | .none, _, _ => []
+  | .node p c3 c1 c2, ref, tin =>
+    let ref' := if p.dc = 0 then ref else some (ref.getD tin)
+    let t0 := tin + p.pd
+    let t1 := if c3.isNode then (visit c3 0 (t0 + c3.link)).2 + c3.link + p.fd else t0
+    let t2 := if c1.isNode then (visit c1 0 (t1 + c1.link)).2 + c1.link + p.fd else t1
+    (if p.dc = 0 then 0 else tin - ref.getD tin) ::
+      (chainTruth c3 ref' (t0 + c3.link) ++ chainTruth c1 ref' (t1 + c1.link) ++ chainTruth c2 ref' (t2 + c2.link))
+
+/-- The DC-capable devices are contiguous in frame order: phase 0 = none seen yet, 1 = inside the
+    block, 2 = after it (only devices without DC may follow). -/
+def DcContig : Tree → Nat → Prop
+  | .none, _ => True
+  | .node p c3 c1 c2, ph =>
+    if p.dc = 0 then
+      DcContig c3 (if ph = 0 then 0 else 2) ∧ DcContig c1 (if ph = 0 then 0 else 2) ∧ DcContig c2 (if ph = 0 then 0 else 2)
+    else (ph = 0 ∨ ph = 1) ∧ DcContig c3 1 ∧ DcContig c1 1 ∧ DcContig c2 1
+
+
 end Ec.DcSpec
